@@ -109,7 +109,7 @@ CLAIMS["C12"] = {
             "Pending; poll_finalize answers Done only after everything was delivered and every downstream finalized. Loop-free methods are "
             "complete for Item=u8; flat_map/flatten/persist/accumulate/sort drains and pull::send_push/send_sink are bounded (<= 3 buffered items).",
     "note": "Trusted: Kani+CBMC; std Vec and sort_unstable_by are trusted (sort harness uses concrete lengths 0..2); fold_keyed/reduce_keyed own an "
-            "FxHashMap and are covered in the thorough tier only (one key); filter_map_async (loop-free, complete), flat_map_stream and flatten_stream "
+            "FxHashMap and are covered for one key only (finalize histories; ~100 s each, in both tiers); filter_map_async (loop-free, complete), flat_map_stream and flatten_stream "
             "(<= 2 further stream items per call) have step contracts with havoc futures / streams, state_push a step contract and a 3-poll finalize "
             "trace, resolve_futures step contracts in both modes against a havoc queue (<= 2 queued outputs; any completion order); re-polling poll_finalize of a downstream that already answered Done (fanout/unzip/demux) is tolerated by the havoc "
             "downstream, as the crate's own fused TestPush does.",
